@@ -605,7 +605,10 @@ def run(ctx):
     tasks, meta = [], []
     for pi, (p, goals, tag) in enumerate(progs):
         text = P.prog_text(p)
-        for pname in used_params(p):
+        pnames = used_params(p)
+        if ctx.quick and "symbolic-base" in tag:
+            pnames = pnames[:1]  # Polar's solving is slow on these: one parameter in the quick tier
+        for pname in pnames:
             for m in goals:
                 pts = []
                 for x0 in P0S:
@@ -613,12 +616,12 @@ def run(ctx):
                     pt[pname] = str(x0)
                     pts.append(pt)
                 tasks.append({"kind": "sens", "text": text, "goal": gen.goal_text(m), "param": pname, "points": pts,
-                              "nvals": N + 1, "timeout": 100})
+                              "nvals": N + 1, "timeout": ctx.pick(80, 150)})
                 meta.append((pi, pname, m))
     order = sorted(range(len(tasks)), key=lambda i: 0 if "symbolic-base" in progs[meta[i][0]][2] else 1)
     tasks = [tasks[i] for i in order]
     meta = [meta[i] for i in order]
-    results = lib.run_tasks(tasks, timeout=100)
+    results = lib.run_tasks(tasks, timeout=ctx.pick(80, 150))
     print(f"[C10] polar tasks: {len(tasks)} in {ctx.elapsed():.0f}s", flush=True)
     ctx.coverage["slowest_tasks_s"] = sorted([(r.get("seconds", -1), r.get("seconds_a", -1), progs[m[0]][2], t["goal"], t["param"])
                                                for m, t, r in zip(meta, tasks, results)], reverse=True)[:6]
@@ -680,7 +683,7 @@ def run(ctx):
             om["polys"] = polys
         return again
 
-    allkeys = [(pi, pname) for pi, (p, goals, tag) in enumerate(progs) for pname in used_params(p)]
+    allkeys = sorted({(m[0], m[1]) for m in meta})
     again = oracle_round(allkeys, N, 0, ctx.pick(90, 240))
     if again:
         # state space too large for N iterations inside the time limit: fewer iterations
